@@ -21,6 +21,89 @@ PROPS = {
     },
 }
 
+PROPS.update({
+    "C06": {
+        "tests": "^TestC06_",
+        "quick": {"scale": 1.0, "timeout": 600},
+        "thorough": {"scale": 10.0, "shards": 16, "timeout": 1500, "fuzz": [("FuzzC06", 60)]},
+        "rule": "rapid-generated JSON trees x {sha2-256, sha2-512}: hash compared with the harness' own JCS+SHA-2+multihash+base64url "
+                "(refHash); a re-spelling must validate, a single-point modification (leaf change, member/element added) must not; the "
+                "other algorithm's hash validates by its own prefix, a mislabelled digest does not; one unsupported code and one malformed "
+                "encoding (empty, truncated, extended, padded, foreign characters, length field +-1, changed digest character, "
+                "non-canonical final character) per case. Every case is non-trivial (it contains an equal-but-respelled value, a "
+                "modified value and a malformed hash); distinct = distinct (hash, modification, malformed kind).",
+        "technique": "property-based testing (rapid) with an independent multihash reference and by-construction verdicts; native fuzzing in thorough",
+        "level_text": "Randomised exploration against an independent reference implementation of the hash construction; equal/unequal verdicts are known by construction of the generated pair.",
+        "level_note": "Trusts crypto/sha256, crypto/sha512, encoding/base64 of the Go standard library and the harness' JCS reference (checked itself by C05).",
+        "assumptions": ["'well-formed encoded multihash' is taken structurally (varint code, varint length equal to the remaining bytes, url-safe unpadded alphabet); a non-canonical final base64 character must fail validation but need not be rejected by GetMultihashCode"],
+    },
+    "C15": {
+        "tests": "^TestC15_",
+        "quick": {"scale": 1.0, "timeout": 600},
+        "thorough": {"scale": 8.0, "shards": 16, "timeout": 1500},
+        "rule": "rapid: key from a deterministic pool of all five key types (incl. keys with leading-zero coordinates) x payload "
+                "(1 B..4 KiB or canonical JSON) x kid; JWS made by the library signers (3/4) or by the harness with fixed-width r||s and "
+                "optionally a leading-zero half (1/4); must verify, return the payload, and verify with crypto/ecdsa / crypto/ed25519 over "
+                "the transmitted header.payload; then one of 12 tamperings (payload bit, signature bit, header alg/kid/extra member, "
+                "other key, signature length +-1, stripped/extra zero, segment split, bad base64, unsupported key, JSON serialization) must "
+                "fail. Plus an exhaustive single-bit scan of payload and signature of one JWS per key type (every pool key in thorough). "
+                "Non-trivial: P-521, a leading-zero signature half, or a tampered JWS that still splits into three decodable segments; "
+                "distinct by (jws, tamper).",
+        "technique": "property-based testing (rapid): sign/verify round trip, differential against the Go standard library, by-construction tamper verdicts, exhaustive bit scan",
+        "level_text": "Randomised exploration plus an exhaustive bit-flip scan of sample signatures; cryptographic spaces are sampled, not enumerated.",
+        "level_note": "Trusts crypto/ecdsa, crypto/ed25519, btcec curve parameters. The library's ecsigner draws its nonce from crypto/rand (verdicts do not depend on it).",
+        "assumptions": ["payloads are non-empty (an empty compact payload means 'detached' and is refused)", "header changes are changes of decoded content; ECDSA (r, n-s) malleability is outside 'single-bit change'"],
+    },
+    "C16": {
+        "tests": "^TestC16_",
+        "quick": {"scale": 4.0, "timeout": 600},
+        "thorough": {"scale": 40.0, "shards": 16, "timeout": 1500},
+        "rule": "rapid: pool keys of all five types (searched keys with a leading zero byte in x and in y for every curve, over-weighted) "
+                "and fresh keys from drawn scalars/seeds; GetPublicKeyJWK must equal the harness' fixed-width encoding, read back to the "
+                "same key, and give refHash commitments / reveal values; then one modification (last-bit / random-bit change, shortened, "
+                "extended, extra or stripped leading byte, other or unsupported curve name, swapped coordinates) must be rejected. "
+                "Non-trivial: key with a leading-zero coordinate, or a modification that must be rejected; distinct by (key, modification).",
+        "technique": "property-based testing (rapid) with a fixed-width reference encoding and by-construction rejection verdicts",
+        "level_text": "Randomised exploration over a key pool built to contain the rare leading-zero coordinates for every curve; the run is inconclusive if a curve lacks such a key.",
+        "level_note": "Trusts math/big FillBytes and the curve implementations (crypto/elliptic, btcec) used to derive public points.",
+        "assumptions": ["bit changes of an Ed25519 public key are not 'off-curve' at this layer (any 32 bytes are accepted as an encoding); wrong width is rejected for all types"],
+    },
+    "C10": {
+        "tests": "^TestC10_",
+        "quick": {"scale": 1.0, "timeout": 900},
+        "thorough": {"scale": 12.0, "shards": 16, "timeout": 1800},
+        "rule": "rapid: well-formed start document (0-4 keys, 0-3 services, also-known-as, other members; ids from a small alphabet so that "
+                "collisions are frequent) and 1-7 validated patches over all eight actions; ietf-json-patch operations are drawn over "
+                "existing / fresh / junk pointers and kept when RFC 6902 (reference evaluator) says they apply and they stay outside "
+                "publicKey/service. Oracle: refCompose left fold, compared on canonical JSON after normalising absent/null/empty lists; "
+                "unique ids in => unique ids out. Non-trivial: remove-then-re-add of an id, replace-then-add, partial id overlap, "
+                "also-known-as duplicate, or an ietf operation after a copy/move; distinct by (document, patches).",
+        "technique": "property-based testing (rapid): model-based comparison with a reference composer and an RFC 6902 reference evaluator",
+        "level_text": "Randomised exploration of patch histories against an executable reference model of the documented per-action semantics.",
+        "level_note": "Trusts the harness reference composer (about 150 lines, plain maps/slices) and its RFC 6902 evaluator.",
+        "assumptions": ["ietf operations that RFC 6902 itself rejects (missing target, '-' or out-of-range index for get, leading zeros, move into own child) are not compared with a reference: they only have to fail or succeed without panic (C19) and atomically (C12)"],
+    },
+})
+
+PROPS.update({
+    "C11": {
+        "tests": "^TestC11_",
+        "quick": {"scale": 1.0, "timeout": 900},
+        "thorough": {"scale": 15.0, "shards": 16, "timeout": 1800},
+        "rule": "rapid: document with keys, services and other members; ietf-json-patch of 1-4 operations over all six kinds whose "
+                "path and from are drawn (1/3) from a list of protected / look-alike pointers (/publicKey, /service, elements, "
+                "sub-members, '-', leading-zero indices, prefix siblings, case variants, escaped tokens, root, alsoKnownAs) and (2/3) "
+                "from pointers into the current document (existing, fresh, junk); values may themselves contain publicKey/service "
+                "members. Oracle: Validate(p)==nil and ApplyPatches succeeds => canonical JSON of publicKey and service unchanged. "
+                "Non-trivial: validated patch that mentions a protected name (or the root) in some field, or that applied and changed "
+                "the document; distinct by (document, operations).",
+        "technique": "property-based testing (rapid): invariant over validator verdict and composer result",
+        "level_text": "Randomised exploration of RFC 6902 lists aimed at the protected members; the invariant is checked on every validated, applicable list.",
+        "level_note": "Trusts the harness comparison of the publicKey/service members (canonical JSON after a JSON round trip).",
+        "assumptions": ["absent, null and empty publicKey/service lists are the same state"],
+    },
+})
+
 NOT_APPLICABLE = {p: "check not built yet (work in progress; this entry is temporary)" for p in
                   ["C%02d" % i for i in range(1, 21)]}
 HOOK_COMMITS = []
